@@ -747,6 +747,9 @@ let parse_case (f : fmt) (input : string) (obs0 : string) : verdict =
       | _ -> oracle := [ ("C03", "parser crashed: " ^ impl) ]);
       (if flags <> "" then
          match words flags with p :: m -> oracle := (p, "chunked run differs from whole-buffer run: " ^ String.concat " " m) :: !oracle | [] -> ());
+      (match List.filter (fun x -> starts_with x "ALIAS ") flagl with
+       | x :: _ -> oracle := ("C15", "a string or key delivered by value changed after delivery (it aliases a buffer that was reused): " ^ x) :: !oracle
+       | [] -> ());
       let model =
         if f.fname = "json" && vfail < 0 then
           (match find_flag "REF" flagl with
